@@ -11,7 +11,7 @@ from .shims import QueueShim, ThreadingShim, TimeShim
 from .socksim import SelectShim, SimNet, SocketShim
 
 MODULES = {
-    "secsgem.common.protocol": ("queue", "random"),
+    "secsgem.common.protocol": ("queue", "random", "threading"),
     "secsgem.common.protocol_dispatcher": ("threading", "queue"),
     "secsgem.common.byte_queue": ("threading",),
     "secsgem.common.block_send_info": ("threading",),
@@ -68,6 +68,8 @@ def simulation(sched_seed=0, switch_prob=0.0, preempts=(), preempt_prob=0.0, hot
         for modname, names in MODULES.items():
             mod = importlib.import_module(modname)
             for n in names:
+                if not hasattr(mod, n):  # the module does not (or no longer / not yet) import it
+                    continue
                 saved.append((mod, n, getattr(mod, n)))
                 setattr(mod, n, shims[n])
         yield World(sim, net)
